@@ -270,8 +270,13 @@ func runStoreTarget(rep *vh.Report, env vh.Env, ti, target int, isDense bool, hi
 			pan = guard(func() { got, err = st.LoadSession(j.request()) })
 			switch {
 			case pan != nil || err != nil || got == nil:
-				rep.Violate(streamStore, ti, "store: saved-session-does-not-load sealed-length="+lengthClass(sealed),
-					fmt.Sprintf("SaveSession then LoadSession with every cookie the store set (%s store, sealed length %d): err=%v panic=%v", kind, sealed, err, pan),
+				// class by the length the sealed session SHOULD have (the store may have cut or split it)
+				want := sealed
+				if v, e := sessions.MarshalSession(s, st.CookieCipher); e == nil {
+					want = len(v)
+				}
+				rep.Violate(streamStore, ti, "store: saved-session-does-not-load sealed-length="+lengthClass(want),
+					fmt.Sprintf("SaveSession then LoadSession with every cookie the store set (%s store, sealed length %d, cookie values in the jar total %d): err=%v panic=%v", kind, want, sealed, err, pan),
 					wit(path, sealed, n, rec.Header(), j, nil))
 				return sealed, false
 			default:
